@@ -364,13 +364,21 @@ class JSONGrammar(BaseGrammar):
         if not self.__schema:
             with self.__sync_required_names():
                 self.__schema = self.__schema_builder.to_schema()
+        # The required names can be changed without resetting the dependencies:
+        # keep the cached schema in sync with them.
+        if self._required_names:
+            self.__schema["required"] = sorted(self._required_names)
+        else:
+            self.__schema.pop("required", None)
         return self.__schema
 
     def _create_validator(self) -> None:
         """Create the schema validator."""
-        self.schema.pop("id", None)
-        self.schema.pop("required", None)
-        self.__validator = compile_schema(self.schema)
+        # Work on a copy such that the dictionary returned by schema is not modified.
+        schema = dict(self.schema)
+        schema.pop("id", None)
+        schema.pop("required", None)
+        self.__validator = compile_schema(schema)
 
     def set_descriptions(self, descriptions: Mapping[str, str]) -> None:
         """Set the properties descriptions.
